@@ -693,6 +693,91 @@ def small_pool(ctx, n, max_men=32, nonterminal=True):
     return out[:n]
 
 
+TERMINAL_FENS = ["7k/5Q2/6K1/8/8/8/8/8 b - - 0 1", "7k/6Q1/6K1/8/8/8/8/8 b - - 0 1", "k7/8/1K6/8/8/8/8/R7 w - - 0 1",
+                 "rnb1kbnr/pppp1ppp/8/4p3/6Pq/5P2/PPPPP2P/RNBQKBNR w KQkq - 1 3", "8/8/8/8/8/5k2/5p2/5K2 w - - 0 1"]
+
+
+def run_trace(item):
+    """`setoption; position; go depth d` on the real binary with the stable-sort hook; canonical event list"""
+    fen, d, iv = item
+    s = Session(env={"VERIF_STABLE_SORT": "1"})
+    try:
+        s.send(f"setoption name currmoveLogInterval value {iv}")
+        s.send(f"position {fen}")
+        s.send(f"go depth {d}")
+        got, st = wait_bestmove(s, 90.0)
+        if st != "match":
+            time.sleep(0.1)
+            return ("fail", crash_line(s) or st, got[-3:])
+        ev = []
+        for l in got:
+            pi = parse_info(l)
+            if pi is None:
+                m = re.match(r"^info depth 0 score (cp -?\d+|mate -?\d+)$", l)
+                if m:
+                    ev.append(f"info depth 0 score {m.group(1)}")
+                elif l.startswith("bestmove"):
+                    ev.append(l.strip())
+                elif l.startswith("info") and not l.startswith("info string"):
+                    ev.append("unparsed " + l)
+                continue
+            if pi["kind"] == "depth":
+                ev.append(f"info depth {pi['depth']} score {pi['score']} nodes {pi['nodes']} pv {','.join(pi['pv'])}")
+            elif pi["kind"] == "score":
+                ev.append(f"info score {pi['score']} depth {pi['depth']} nodes {pi['nodes']} pv {','.join(pi['pv'])}")
+            else:
+                ev.append(f"info currmove {pi['move']} currmovenumber {pi['number']} nodes {pi['nodes']}")
+        # mid-iteration pv lines appear only when the search runs longer than 200 ms of wall-clock time: keep the final one
+        last_score = max((i for i, e in enumerate(ev) if e.startswith("info score")), default=-1)
+        ev = [e for i, e in enumerate(ev) if not e.startswith("info score") or i == last_score]
+        return ("ok", ev)
+    finally:
+        s.kill()
+
+
+def trace_correspondence(ctx, nq, nt):
+    """co_trace: the complete output of `go depth d` (every completed depth's score, node count and line, the
+    currmove lines with their node counts, the final line and the bestmove) of the real engine - run with the
+    verif hook that makes move ordering a *stable* sort - against the Lean model's `iterDeep` under a silent oracle
+    and a stable sort. This ties the search model the theorems of C03/C04/C10/C11/C14 are about to the Go search
+    node for node: any difference in pruning, ordering, PV bookkeeping, node accounting or iteration control shows."""
+    n = ctx.size(nq, nt)
+    pool = small_pool(ctx, n, max_men=32)
+    items = []
+    for f, cnt in pool:
+        nmen = sum(1 for c in f.split()[0] if c.isalpha())
+        d = 4 if nmen <= 6 else (3 if nmen <= 14 else 2)
+        if not ctx.quick and nmen <= 10 and ctx.rng.random() < 0.3:
+            d += 1
+        items.append((f, d, ctx.rng.choice([37, 500, 1000000])))
+    for f in TERMINAL_FENS:
+        items.append((f, 2, 1000))
+    res = parallel_map(run_trace, items, workers=min(12, infra.NCPU))
+    ref = run_batch(MDRV, [f"mtrace\t{f}\t{d}\t{iv}" for f, d, iv in items], shards=infra.NCPU, timeout_per_op=300.0)
+    ctx.co["co_trace"] = len(items)
+    for (f, d, iv), g, r in zip(items, res, ref):
+        ctx.case(f"trace|{f}|{d}|{iv}")
+        ctx.bump(f"trace_depth_{d}")
+        lines = [f"setoption name currmoveLogInterval value {iv}", f"position {f}", f"go depth {d}"]
+        if g is None or g[0] != "ok":
+            ctx.violation(f"trace-fail:{f}:{d}", {"kind": "input", "lines": lines, "what": f"search did not finish: {g}"})
+            continue
+        if not r or not r.startswith("ok"):
+            ctx.violation(f"trace-model:{f}:{d}", {"kind": "input", "lines": lines, "what": "the Lean search model panicked or failed on an input the engine handled", "model": (r or "")[:300], "engine": g[1][-3:]})
+            continue
+        me = [x.strip() for x in r[3:].split(" ; ") if x.strip()]
+        ge = g[1]
+        ctx.bump("trace_events", len(ge))
+        ctx.bump("trace_currmove_lines", sum(1 for e in ge if e.startswith("info currmove")))
+        if me != ge:
+            k = next((i for i, (a, b) in enumerate(zip(ge, me)) if a != b), min(len(ge), len(me)))
+            ctx.violation(f"trace:{f}:{d}:{iv}", {"kind": "input", "lines": lines, "env": "VERIF_STABLE_SORT=1",
+                          "what": "output of `go depth d` (engine with stable move ordering) differs from the Lean search model's event sequence",
+                          "first_difference_index": k, "engine": ge[max(0, k - 1):k + 2], "model": me[max(0, k - 1):k + 2]}, found=False)
+        elif len(ctx.samples) < 4:
+            ctx.sample({"trace": lines, "events": len(ge), "last": ge[-2:]})
+
+
 def legal_set(fens):
     res = run_batch(MDRV, [f"sgen\t{f}" for f in fens])
     return [set(m for m in kv(r).get("moves", "").split(",") if m) for r in res]
@@ -2643,21 +2728,28 @@ def crash_line(s):
     return infra.crash_class(s.stderr_text())
 
 
+def with_trace(fn, nq, nt):
+    def run_both(ctx):
+        fn(ctx)
+        trace_correspondence(ctx, nq, nt)
+    return run_both
+
+
 CHECKS = {
     "C01": {"fn": check_C01, "rule": "positions from the suite FENs, targeted families, spec playouts, constructive placements (promoted material, castling/ep fields), one-piece mutations and colour mirrors, all filtered by Spec.Legal; a case is non-trivial if the position has at least one legal move; distinct by FEN"},
     "C02": {"fn": check_C02, "rule": "biased random playouts of the Lean specification from start/suite/targeted/constructive positions; engine PushMove/PopMove snapshots vs model vs Spec.apply at every ply; distinct by (start, first 40 moves)"},
     "C06": {"fn": check_C06, "rule": "same position pool as C01; tactical list, tactical flag, both counters vs specification; Perft/PerftTactical depth 2-4 vs Spec.paths; UCI perft/tperft divide text for n=1,2; non-trivial if the position has a tactical move"},
     "C09": {"fn": check_C09, "rule": "attack rows: one attacker (12 kinds) on any square, optional single blocker on any other square, all 64 targets per row (sampled in quick, exhaustive otherwise) plus attacked-square maps of full positions; distinct by placement"},
-    "C03": {"fn": check_C03, "rule": "legal non-terminal positions (by FEN and by move list) x go forms (depth, movetime incl. 1 ms, clocks incl. 1 ms and negative, movestogo, infinite+stop at several delays, bare go); one case = (position, form); count of bestmove lines and legality per Spec.legalMoves"},
-    "C04": {"fn": check_C04, "rule": "positions (sparse ones up to depth 3-4, dense ones depth 1-2): engine root value per iteration (hook VerifSearch = startAlphaBeta sequence) vs the Lean model's reference search with full evaluation; lazy-cut hook adjudicates admitted deviations; plus iteration-sequence check through UCI"},
+    "C03": {"fn": with_trace(check_C03, 16, 200), "rule": "legal non-terminal positions (by FEN and by move list) x go forms (depth, movetime incl. 1 ms, clocks incl. 1 ms and negative, movestogo, infinite+stop at several delays, bare go); one case = (position, form); count of bestmove lines and legality per Spec.legalMoves"},
+    "C04": {"fn": with_trace(check_C04, 16, 300), "rule": "positions (sparse ones up to depth 3-4, dense ones depth 1-2): engine root value per iteration (hook VerifSearch = startAlphaBeta sequence) vs the Lean model's reference search with full evaluation; lazy-cut hook adjudicates admitted deviations; plus iteration-sequence check through UCI"},
     "C05": {"fn": check_C05, "rule": "sparse constructive positions classified by the AND/OR specification (forced mate within 3 plies for either side / none); engine `go depth 3` score and the reply's distance; terminal classification and eval range on the broad pool; formatScore Go vs model"},
     "C07": {"fn": check_C07, "rule": "playout games and criticalPositions games rendered as `position` lines in the startpos / fen-keyword / bare-FEN forms with random upper-case promotion letters; engine snapshot vs Spec.play; all 20480 move strings round trip"},
     "C08": {"fn": check_C08, "rule": "valid FENs of legal positions with move numbers 1..9999 vs an independent reader; a fixed list of unrepresentable positions; near-valid mutations and random bytes (Go vs model outcome class, no crash, accepted => consistent); rejected FEN keeps the position"},
-    "C10": {"fn": check_C10, "rule": "searches with the 200 ms print gate forced open by a sleep hook so every PV improvement is printed; strict UCI grammar on every info line; every PV replayed by the specification; bestmove = head of last PV; currmove legality and numbering"},
-    "C11": {"fn": check_C11, "rule": "stop placed (hold hook) and deadline expiry placed (expire hook) after chosen root moves of iterations 2-4 and between iterations, plus wall-clock stops; bestmove vs a fresh `go depth D` for the deepest completed iteration D"},
+    "C10": {"fn": with_trace(check_C10, 24, 400), "rule": "searches with the 200 ms print gate forced open by a sleep hook so every PV improvement is printed; strict UCI grammar on every info line; every PV replayed by the specification; bestmove = head of last PV; currmove legality and numbering"},
+    "C11": {"fn": with_trace(check_C11, 16, 200), "rule": "stop placed (hold hook) and deadline expiry placed (expire hook) after chosen root moves of iterations 2-4 and between iterations, plus wall-clock stops; bestmove vs a fresh `go depth D` for the deepest completed iteration D"},
     "C12": {"fn": check_C12, "race": True, "rule": "every (search phase x command sequence) class forced by holding the search goroutine in a sync hook while the command thread processes the lines; watchdog isready; bestmove count; engine usable afterwards; static access table conflicts"},
     "C13": {"fn": check_C13, "rule": "complete boundary lattice (67500 cases) + random clocks: calcEndtime vs model, and bounds / own-clock / monotonicity directly on the engine's values; doGo token parsing through the real command path (deadline hook) vs model; measured wall-clock overshoot"},
-    "C14": {"fn": check_C14, "rule": "probe `position P; go depth d` after a random command history (other games, finished and stopped searches, perft/eval, option changes) vs the same probe in a fresh process; canonical analysis = per-depth score, pv, nodes + bestmove"},
+    "C14": {"fn": with_trace(check_C14, 24, 400), "rule": "probe `position P; go depth d` after a random command history (other games, finished and stopped searches, perft/eval, option changes) vs the same probe in a fresh process; canonical analysis = per-depth score, pv, nodes + bestmove"},
     "C16": {"fn": check_C16, "rule": "random query sequences (go to completion, go stopped at random times, movetime, perft, tperft, eval, tostr, isready, setoption) after `position P`; tostr + perft 1 text before/after; following search vs fresh search"},
     "C17": {"fn": check_C17, "rule": "grammar-directed lines with boundary/malformed arguments and random bytes: synchronous lines in-process (panic recovered per line), fixed boundary scripts and random sessions with searches against the real binary; must keep answering isready"},
     "C18": {"fn": check_C18, "rule": "stress scenarios: move numbers 1..9999, fortress positions at depth MaxSearchDepth-1..100 and infinite, games of hundreds of plies through `position ... moves`, capture chains, perft depth around the stack size"},
